@@ -35,6 +35,8 @@ def run(ctx):
     ctx.guard("oneshot", "decrypt", lambda: aead.check_oneshot(ctx, P, "decrypt"))
     # the AEAD's own cipher instance: chunk-independence of ChaCha::process_mut and the engine constants / key rows for
     # both key lengths are part of "any split gives the same ciphertext" and "key lengths {16,32}"
+    from . import streamshape
+    ctx.guard("shape-eval", "chacha20::ChaCha::process_mut", lambda: streamshape.check_process_mut(ctx, P, ["chacha20::ChaCha"]))
     ctx.guard("lockstep", "chacha20::ChaCha", lambda: C04.check_process_mut(ctx, P, "chacha20::ChaCha"))
     ctx.guard("update-order", "chacha20::ChaCha", lambda: C04.check_update(ctx, P, "chacha20::ChaCha", "increment$"))
     ctx.guard("process-order", "chacha20::ChaCha", lambda: C04.check_process(ctx, P, "chacha20::ChaCha"))
